@@ -496,19 +496,10 @@ func getLsbDeltaUnscaled(t *tables.HVAR, glyph tables.GlyphID, coords []VarCoord
 }
 
 func sanitizeGDEF(table tables.GDEF, axisCount int) error {
-	// check axis count
-	if got := table.ItemVarStore.AxisCount(); got != -1 && got != axisCount {
-		return fmt.Errorf("GDEF: invalid number of axis (%d != %d)", axisCount, got)
-	}
-
-	// check LigCarets length
-	if table.LigCaretList.Coverage != nil {
-		expected := table.LigCaretList.Coverage.Len()
-		got := len(table.LigCaretList.LigGlyphs)
-		if expected != got {
-			return fmt.Errorf("GDEF: invalid number of lig gyphs (%d != %d)", expected, got)
-		}
-	}
+	// Neither an axis count of the variation store differing from the one of 'fvar'
+	// ([tables.VariationRegion.Evaluate] takes a missing coordinate as 0), nor a
+	// LigCaretList whose coverage and LigGlyph array differ in length (the lookup
+	// tests its index) invalidate the table: Harfbuzz uses both.
 	return nil
 }
 
